@@ -49,8 +49,10 @@ def rfc_base_string(method, uri, decoded_params, host=None):
     return "&".join([rfc_enc(method.upper()), rfc_enc(rfc_base_uri(uri, host)), rfc_enc(norm)])
 
 
-TEXT = ["a", "b c", "a+b", "100%", "%41", "%2B", "x=y", "p&q", "~t", "é", "日本", "/s?l#a", "", "A", "Z9-._~", ":@!$'()*,;"]
-KEYS = ["a", "b", "a2", "A", "c@", "ü", "oauth_x", "z z", "k%20", "a"]
+TEXT = ["a", "b c", "a+b", "100%", "%41", "%2B", "x=y", "p&q", "~t", "é", "日本", "/s?l#a", "", "A", "Z9-._~", ":@!$'()*,;",
+        # unreserved text with ONE character of another kind at either end (line ends, blanks, NUL), and nothing but such characters
+        "hello\n", "\nhello", "hello\r\n", "a\n", "\n", "hello ", " hello", "hello\t", "hello\x00", "Z9-._~\n", "hello\x0b", "hello\x1c"]
+KEYS = ["a", "b", "a2", "A", "c@", "ü", "oauth_x", "z z", "k%20", "a", "k\n", "\nk"]
 URIS = ["https://api.example.com/r", "HTTPS://API.Example.COM/r", "https://api.example.com:443/r", "https://api.example.com:8443/r",
         "http://api.example.com:80/r", "http://api.example.com:443/r", "https://api.example.com", "https://api.example.com/a%20b/c;p=1",
         "https://api.example.com/r?x=1&y=a%20b&x=0", "https://api.example.com/r?b5=%3D%253D&a3=a&c%40=&a2=r%20b", "https://u:p@api.example.com/r",
@@ -155,9 +157,9 @@ def run_client_server(ctx):
         sig_type = rng.choice(["HEADER", "QUERY", "BODY"])
         method = rng.choice(["GET", "POST"]) if sig_type != "BODY" else "POST"
         uri = rng.choice([u for u in URIS[:11] if u.lower().startswith("https")])
-        csecret, tsecret = rng.choice(["cs", "c&s", "c s%", "ç"]), rng.choice([None, "ts", "t&=s"])
+        csecret, tsecret = rng.choice(["cs", "c&s", "c s%", "ç", "cs\n", "\ncs"]), rng.choice([None, "ts", "t&=s", "ts\n"])
         token = "tok" if tsecret is not None else None
-        form = [(rng.choice(KEYS[:6]), rng.choice(TEXT[:12])) for _ in range(rng.choice([0, 1, 2]))] if method == "POST" else []
+        form = [(rng.choice(KEYS[:6] + KEYS[10:]), rng.choice(TEXT[:12] + TEXT[16:])) for _ in range(rng.choice([0, 1, 2]))] if method == "POST" else []
         body = up.urlencode(form) if form else ""
         headers = {"Content-Type": "application/x-www-form-urlencoded"} if method == "POST" else {}
         if rng.random() < 0.2:
